@@ -202,6 +202,7 @@ VARIANTS = {
     (RQ, "        total_path = deepcopy(pathlist[i])\n        msg = msg +", "        chosen = pathlist[i]\n        total_path = deepcopy(chosen)\n        msg = msg +", 'temporary before the copy'),
   ]},
  'C17': {M: [
+    (EL, "'gain_target': round(amp.effective_gain, 6) if amp.effective_gain is not None else None,", "'gain_target': round(amp.effective_gain, 6) if amp.effective_gain else None,", 'F12 reverted: 0 dB gain exported as None'),
     (NW, "        try:\n            stimulated_raman_scattering = RamanSolver.calculate_stimulated_raman_scattering(spectral_info, node)\n        finally:\n            SimParams.set_params(save_sim_params)", "        stimulated_raman_scattering = RamanSolver.calculate_stimulated_raman_scattering(spectral_info, node)\n        SimParams.set_params(save_sim_params)", 'restore only on the normal path'),
     (PA, '                "order": self.order,\n', '', 'exported settings incomplete'),
     (EL, "                'out_voa': self.out_voa,\n                'in_voa': self.in_voa", "                'out_voa': self.operational.out_voa,\n                'in_voa': self.in_voa", 'exports the input VOA, not the designed one'),
